@@ -47,6 +47,18 @@ CHECKS = {
                      "checks the statement's consequences on Layout.Expected and emits the table; the harness presses every point on the real engine and "
                      "compares text, emptiness and session flag (exhaustive: true)",
                 note="key-name -> layout-entry naming convention (bin/gen.py) transcribed from riti.h names; two layout files; TLC JSON modules, harness executor trusted"),
+    "C07": dict(category=MC, design_ref="DESIGN.md 5 C07",
+                technique="TLC trace validation of recorded candidate lists against Candidates.tla (PropOrderPhonetic) with facts from independent oracles",
+                text="every list the real engine returns for a corpus (all 1-char strings, 1/6 or all 2-char strings over the 94 typeable characters, auto-correct keys, base x suffix "
+                     "words, wrapped words, emoticons, emoji names, random words; 4 option sets) is logged with oracle facts and TLC decides the order relation clause by clause: "
+                     "auto-correct first, non-decreasing admissible distances (greedy over the set of justifications), transliteration after dictionary words, English last, no emoji "
+                     "before an exact dictionary hit, no duplicates",
+                note="facts (dictionary+regex membership, Levenshtein, auto-correct, emoji tables, transliteration) are oracle-computed outside TLA+; quick tier samples the corpus"),
+    "C08": dict(category=MC, design_ref="DESIGN.md 5 C08",
+                technique="TLC trace validation against Candidates.tla (PropJustified, PropSuffixComplete with Store.Join) with oracle facts incl. the lists offered for each base",
+                text="same recorded corpus; the recorder types every base (each split of the word into base + suffix key) alone in the same context first and logs what was offered; TLC "
+                     "computes the joined forms with the statement's joining rules and requires every candidate to be justified and every due joined form to be present",
+                note="completeness clause for bases starting with a lower-case letter (riti selects dictionary tables by it; other bases contribute their auto-correct entry only); oracle facts outside TLA+"),
     "C09": dict(category=MC, design_ref="DESIGN.md 5 C09",
                 technique="TLC trace validation (impl -> spec): recorded commit/restart/re-typing sessions of the real engine checked against Trace_Store (Store.tla: KeyOf, StripCand, Join)",
                 text="8 x 60 (quick) / 8 x 400 (thorough) recorded rounds of a commit-heavy driver (real words, META wrapping, smart quotes and English on/off, restarts over the same "
@@ -85,11 +97,36 @@ CHECKS = {
                      "chandrabindu, independent vowel, punctuation, digit) x 16 helper settings and checks OldOrderEquiv and the waiting-sign clauses on the transcript; "
                      "each word is typed both ways into two real contexts and the texts compared after every syllable, plus the waiting-sign clauses on the real engine",
                 note="only grammar-generated words (behaviour on ill-formed key sequences is descriptive); bounded word length; TLC, harness executor trusted"),
+    "C15": dict(category=MC, design_ref="DESIGN.md 5 C15",
+                technique="TLC trace validation of recorded fixed-layout lists against Candidates.tla (PropFixedList) with dictionary facts",
+                text="prefixes (up to 6/12 characters) of 1/97 (quick) or all (thorough) dictionary words, every Bengali emoji name and every emoticon are typed through the inverse of the "
+                     "bundled layout, wrapped or not, under 6 option sets; TLC checks: first = composed text with curling (split decided by Split.tla), completions are dictionary words "
+                     "with the typed prefix, non-decreasing distance, at most nine, no repeats, raw key text last when English is on",
+                note="dictionary facts and edit distance are oracle facts; cleaning = removing ASCII punctuation, danda, ZWNJ"),
+    "C16": dict(category=MC, design_ref="DESIGN.md 5 C16",
+                technique="TLC trace validation (PropAnsi / FPropAnsi / Enc) of recorded lists in both methods + data-exhaustive encoding pass over dictionary.json",
+                text="every recorded phonetic and fixed list (C07/C15 corpora, ANSI on and off) is checked for the gate (no emoji / emoticon / raw English in ANSI mode) and for the pre-edit "
+                     "relation (Bijoy encoding without Bengali code points / identity); every (4th) dictionary word, candidates of auto-correct key + suffix words and every layout value "
+                     "go through the real pre-edit accessor in ANSI mode. Known finding F18 (dependency panics on U+09C4) is accepted explicitly for exactly those code points",
+                note="the encoding itself is poriborton's public function (oracle named by the statement); emoji-ness from the emojicon tables"),
     "C17": dict(category=MC, design_ref="DESIGN.md 5 C17",
                 technique="TLC enumeration of class strings with Split.tla deciding the wrapping + paired replay (option on/off) with the spec's curling relation per candidate",
                 text="TLC enumerates every quote-containing class string to length 5/7 in both methods, decides word/wrapping with Split.tla and emits paired scenarios "
                      "(contexts differing only in the option, two settings of English/ANSI); the harness checks same kind/length/preselection, untouched raw text and "
                      "punctuation-only text, and the exact curled form of every other candidate; SmartQuoteLocal is model-checked for all class strings",
                 note="split of the transcript defines the wrapping for both sides of a pair; pooled contexts with confirmation on brand-new contexts"),
+    "C18": dict(category=MC, design_ref="DESIGN.md 5 C18",
+                technique="TLC trace validation (PropEmoji / FPropEmoji) over the complete emojicon tables, typed in the method(s) that can type them",
+                text="all 330 emoticons (both methods), 1/4 or all English emoji names (phonetic) and all 1007 Bengali names (fixed) are typed, bare and wrapped; TLC requires the emoticon's "
+                     "emoji and literal text, and the name's emoji as a subsequence in table order wrapped like the word. Known finding F16 (more than eight emoji do not fit the nine-candidate "
+                     "list) is accepted explicitly; F17 (unstable sort) was fixed",
+                note="tables via emojicon's public API (feature internal); non-emoji order is covered by C07/C15"),
+    "C19": dict(category="exploration", design_ref="DESIGN.md 5 C19",
+                technique="TLC enumeration/simulation of FFI.tla call orders + execution through the exported C symbols with snapshot comparison, re-run under valgrind memcheck",
+                text="the call-order quantifier comes from the TLA+ model of the 33 functions over live/freed handles: all in-contract orders to depth 6/7 and random 14-call life "
+                     "cycles; each is executed through the extern C symbols with string validity / equality / snapshot-independence checks, and a sample of several hundred (thousand) "
+                     "sequences is re-executed under valgrind memcheck, which decides 'no invalid access, no leak'. Claimed as exploration, not model checking: the memory verdict "
+                     "is outside TLA+",
+                note="valgrind memcheck is the memory oracle; exported symbols linked from the rlib; in-contract = live handles, in-range indices, variant-appropriate accessors"),
 }
 NOT_APPLICABLE = {}
